@@ -179,16 +179,24 @@ theorem chooseBox_own (b : List (Rat × Rat)) : chooseBox none (some b) = .ok b 
 theorem clockwise_from_lower_left (x y : Rat × Rat) (rest : List (Rat × Rat)) :
     orderClockwise (x :: y :: rest) = .ok [[x.1, y.1], [x.1, y.2], [x.2, y.2], [x.2, y.1]] := rfl
 
+/-- an all-spatial output of one pixel axis, or of three, has no "clockwise": its corners are the product of the limits -/
+theorem all_spatial_not_planar (box : List (Rat × Rat)) (types : List String) (h : box.length ≠ 2) :
+    corners box types false = .ok (product box) := by
+  unfold corners
+  have : (box.length == 2) = false := by simpa using h
+  simp [this, Except.map]
+
 /-- **centre_moves_to_pixel_centres.** With centring every corner coordinate is replaced by its
     nearest pixel centre before the transform is applied. -/
 theorem centre_moves_to_pixel_centres (box : List (Rat × Rat)) (types : List String) (raw : List (List Rat))
     (h : corners box types false = .ok raw) :
     corners box types true = .ok (raw.map (fun v => v.map (fun c => ((Api.toIndex c : Int) : Rat)))) := by
   unfold corners at h ⊢
-  cases hc : (if allSpatial types then orderClockwise box else .ok (product box)) with
-  | error e => simp [hc, Except.map] at h
+  generalize (if (allSpatial types && box.length == 2) = true then orderClockwise box else Except.ok (product box)) = r at h ⊢
+  cases r with
+  | error e => simp [Except.map] at h
   | ok v =>
-    simp only [hc, Except.map, Bool.false_eq_true, if_false] at h
+    simp only [Except.map, Bool.false_eq_true, if_false] at h
     injection h with h; subst h
     simp [Except.map]
 
